@@ -128,12 +128,16 @@ def run(prop, tier, replay=None):
     # hangs (exit 5) are believed only when they repeat from a fresh process
     hung = [wk for wk in all_workers if wk.rc == 5 and wk.span[0] != "c08h"]
     confirms = []
-    for wk in hung[:3]:
+    for wk in hung[:4]:
         wit = (wk.records("X") or [{}])[-1]
         parts = str(wit.get("case", "")).split()
         if len(parts) >= 3:
-            confirms.append(mk(parts[0], int(parts[2]), 1, 900))
+            # a hang that depends on a narrow interleaving does not come back every time: several fresh attempts per case
+            confirms += [mk(parts[0], int(parts[2]), 1, 900 + k) for k in range(8)]
     vlib.run_pool(confirms)
+    if hung:
+        chk.notes.append("%d hung case(s) re-run in %d fresh processes: %d hung again" % (
+            min(len(hung), 4), len(confirms), sum(1 for c in confirms if c.rc == 5)))
     if hung and not any(c.rc == 5 for c in confirms):
         for wk in hung:
             wk.out = "\n".join(l for l in wk.out.splitlines() if "-hangs" not in l)
